@@ -661,9 +661,14 @@ class _Frame:
                 v = v.c
             elif isinstance(v, (list, tuple)):
                 v = _col_from_values(v)
+            elif v is None:
+                pass  # a scalar None is broadcast to the height of the other columns (a column of dtype Null), see below
             elif not isinstance(v, Col):
                 raise ModelGap(f"frame column from {type(v).__name__}")
             cols[k] = v
+        if any(c is None for c in cols.values()):
+            h = next((len(c) for c in cols.values() if c is not None), 1)
+            cols = {k: (Col([0] * h, [T] * h, real_pl.Null) if c is None else c) for k, c in cols.items()}
         self.cols = cols
         n = len(next(iter(self.cols.values()))) if self.cols else 0
         if any(len(c) != n for c in self.cols.values()):
